@@ -1064,6 +1064,12 @@ func genC18(c *corpus, seed uint64) *scn.Scenario {
 	if long {
 		nt, maxOps, maxTotal = 1, 6, 300000
 	}
+	// very long (rare, heavy): more than a million requests from one pool, or a
+	// block size of 200,000 ... 2^20 with a request count beyond it
+	vlong := !long && ((deepTier && r.chance(2)) || r.n(200) == 0)
+	if vlong {
+		long, nt, maxOps, maxTotal = true, 1, 3, 1400000
+	}
 	total := 0
 	for t := 0; t < nt; t++ {
 		var pt scn.PoolTask
@@ -1071,9 +1077,30 @@ func genC18(c *corpus, seed uint64) *scn.Scenario {
 		if long {
 			np = 1 + r.n(2)
 		}
+		if vlong {
+			np = 1
+		}
+		// swarm: three or four pools of ONE type in one task (helper state kept per
+		// type rather than per pool shows when such pools are used alternately)
+		sameType := ""
+		if !long && r.chance(12) {
+			np = 3 + r.n(2)
+			sameType = []string{"token", "position"}[r.n(2)]
+		}
+		// swarm: the task's operations are executed by two goroutines in turn
+		pt.Relay = !long && r.chance(15)
 		for p := 0; p < np; p++ {
 			sp := scn.PoolSpec{Type: []string{"token", "position"}[r.n(2)]}
-			if long && r.chance(60) {
+			if sameType != "" {
+				sp.Type = sameType
+			}
+			if vlong {
+				if r.chance(50) {
+					sp.Block = r.pick([]int{200001, 262144, 524288, 1 << 20, 1<<20 + 1})
+				} else {
+					sp.Block = r.pick([]int{1, 3, 64, 1000, 1024, 4096, 65536})
+				}
+			} else if long && r.chance(60) {
 				sp.Block = hugeBlocks[r.n(len(hugeBlocks))]
 			} else if long {
 				sp.Block = r.pick([]int{1, 2, 7, 64, 1000, 1024, 4096})
@@ -1088,6 +1115,24 @@ func genC18(c *corpus, seed uint64) *scn.Scenario {
 		for o := 0; o < nops; o++ {
 			p := r.n(np)
 			switch x := r.n(100); {
+			case x < 8 && np >= 2 && !long:
+				// one object from every pool of the task in turn, enough rounds to
+				// take the smallest pool over a boundary or two
+				small := pt.Pools[0].Block
+				for _, q := range pt.Pools {
+					if q.Block < small {
+						small = q.Block
+					}
+				}
+				n := 1 + r.n(2*small+2)
+				if n > 3000 {
+					n = 3000
+				}
+				if total+n*np > maxTotal {
+					n = 1
+				}
+				total += n * np
+				pt.Ops = append(pt.Ops, scn.PoolOp{Kind: "rr", N: n})
 			case x < 55:
 				blk := pt.Pools[p].Block
 				var n int
@@ -1105,6 +1150,12 @@ func genC18(c *corpus, seed uint64) *scn.Scenario {
 					n = blk + 1 + r.n(blk/8+2)
 					if blk < 30000 {
 						n = 131000 + r.n(12000)
+					}
+				}
+				if vlong {
+					n = blk + 1 + r.n(blk/16+2)
+					if blk <= 65536 {
+						n = 1050000 + r.n(150000)
 					}
 				}
 				if n < 1 {
